@@ -49,8 +49,60 @@ def observe_here(ir, cases):
     return out
 
 
+def restore_case(seed, opt):
+    """A file is stored, loaded, stored AGAIN with another program and loaded again through the SAME loader object — and the same
+    for an imported module resolved by default `Linker()`s: what is loaded must be what was stored last."""
+    implrun.load()
+    L = implrun.LinearIR
+    rng = random.Random(seed)
+    rec = dict(kind="restore", seed=seed, optimize=opt, src="", features={})
+    a, b = rng.randrange(1, 50), rng.randrange(51, 99)
+    srcA = "export function f(int x) -> int { return x + %d; }" % a
+    srcB = "export function f(int x) -> int { return x * %d; }" % b
+    libA = "function k(int x) -> int { return x + %d; }" % a
+    libB = "function k(int x) -> int { return x * %d; }" % b
+    main = 'import "lib";\nexport function f(int x) -> int { return k(x) + 1; }'
+    rec["src"] = srcA + " || " + srcB
+    d = tempfile.mkdtemp(prefix="nslc17r-")
+    cwd = os.getcwd()
+    try:
+        os.chdir(d)
+        def store(src, path):
+            c = implrun.compile_src(src, optimize=opt)
+            if c[0] != "ok": raise RuntimeError("compile: %s" % (c[1],))
+            with open(path, "wb") as fh: pickle.dump(c[1].IRModule, fh)
+            return c[1].IRModule
+        def run_mod(mods, loader=None):
+            lk = L.Linker(loader=loader) if loader is not None else L.Linker()
+            for m in mods: lk.AddModule(m)
+            return implrun.invoke(implrun.new_vm(lk.Link()), "f", dict(x=5))
+        loader = L.FilesystemModuleLoader()
+        store(srcA, "shader.nslir"); r1 = run_mod([loader.Load("shader")])
+        store(srcB, "shader.nslir"); r2 = run_mod([loader.Load("shader")])
+        want1, want2 = ("ok", 5 + a), ("ok", 5 * b)
+        diffs = []
+        if tuple(r1) != want1: diffs.append("first load: %s, stored program gives %s" % (r1, want1))
+        if tuple(r2) != want2: diffs.append("load after the file was stored again: %s, the program stored last gives %s" % (r2, want2))
+        store(libA, "lib.nslir"); mm = store(main, "main.nslir")
+        r3 = run_mod([L.FilesystemModuleLoader().Load("main")])
+        store(libB, "lib.nslir")
+        r4 = run_mod([L.FilesystemModuleLoader().Load("main")])
+        if tuple(r3) != ("ok", 5 + a + 1): diffs.append("import, first link: %s, expected %s" % (r3, 5 + a + 1))
+        if tuple(r4) != ("ok", 5 * b + 1): diffs.append("import after lib was stored again: %s, expected %s" % (r4, 5 * b + 1))
+        rec["diffs"] = ["restore"] if diffs else []
+        rec["blocks"] = 2
+        if diffs: rec["detail"] = "; ".join(diffs)
+    except BaseException as e:
+        rec["observe_error"] = "%s: %s" % (type(e).__name__, str(e)[:120])
+    finally:
+        os.chdir(cwd)
+        shutil.rmtree(d, ignore_errors=True)
+    return rec
+
+
 def one_case(job):
     kind, seed, opt, cli = job
+    if kind == "restore": return restore_case(seed, opt)
     implrun.load()
     rng = random.Random(seed)
     feat = {}
@@ -130,6 +182,10 @@ def explore(run, scale=1):
         seed = progfam._seed_for(run.seed, "C17", i)
         kind = ["gen", "gen", "calls", "corpus"][i % 4]
         jobs.append((kind, seed, i % 2 == 1, i % 6 == 0))
+    for k in range(len(wholelang.ENTRIES)):          # every corpus entry (uint, vectors, matrices, structs ...), both settings
+        jobs.append(("corpus", k, False, False)); jobs.append(("corpus", k, True, k % 5 == 0))
+    for k in range(6 if run.tier != "thorough" else 60):
+        jobs.append(("restore", progfam._seed_for(run.seed, "C17r", k), k % 2 == 1, False))
     for k in ([10, 50, 100, 150, 200, 300, 400] if run.tier == "thorough" else [10, 100, 200, 300]):
         jobs.append(("chain", k, False, False)); jobs.append(("nested", min(k, 150), False, False))
     recs = []
